@@ -5,7 +5,7 @@
    without segments).  Preservation for whole loaded images with segments
    (addresses, memory images) is decided by the correspondence run: partial. *)
 From ElfioV Require Import Bytes Mem Stream SectionData Strings Elfio Table Loader Layout Writer
-     Load_proofs Data_proofs Codec_proofs Ostream_proofs Reader_proofs Layout_proofs Roundtrip_proofs.
+     Load_proofs Data_proofs Codec_proofs Ostream_proofs Reader_proofs Layout_proofs Writer_proofs Roundtrip_proofs.
 Local Open Scope N_scope.
 
 Theorem C05_section_header_survives_save_and_load :
@@ -50,6 +50,52 @@ Proof.
   destruct (layout_noseg el h0 bound H1 H2 H3 H4 H5) as (el' & secs' & ? & ? & E & <- & _ & _ & K & _). eauto.
 Qed.
 Print Assumptions C05_layout_keeps_attributes.
+
+(* Objects without segments, end to end: the file save() writes for a laid-out
+   object (C03_noseg_saved_file), loaded again: the section header table is
+   reported entry by entry with the headers that were saved, in order, and a
+   data request on a reloaded section stores the bytes that were saved. *)
+Theorem C05_noseg_headers_survive :
+  forall junk (h : ehdr) (secs : list section) (pos' : N),
+    chain secs (e_ehsize h) pos' -> indexed_from 0 secs -> pos' <= e_shoff h ->
+    (forall s, In s secs -> s_cls s = e_cls h /\ shdr_wf s) ->
+    e_shentsize h = shdr_size (e_cls h) ->
+    (forall s, In s secs -> s_index s = 0 -> csize s = 0) ->
+    lenN (e_ident h) = 16 -> e_ehsize h = ehdr_size (e_cls h) ->
+    (forall s b, In s secs -> s_data s = Some b -> sh_size s <= lenN b) ->
+    plan_small 0 (noseg_plan h secs) ->
+    e_shoff h + lenN secs * e_shentsize h < 2 ^ 62 -> secs <> [] ->
+    forall k,
+    let file := os_bytes (exec_plan (new_ostream None) (noseg_plan h secs)) in
+    exists st' loaded,
+      load_sections_loop junk (length secs) (open_istream k file) [] (e_cls h) (e_enc h) (e_shoff h) (e_shentsize h)
+                         0 (lenN secs) true [] [] = Ok (st', rev loaded, []) /\
+      is_fail st' = false /\ is_content st' = file /\ Forall2 same_hdr secs loaded.
+Proof. exact noseg_headers_read_back. Qed.
+Print Assumptions C05_noseg_headers_survive.
+
+Theorem C05_noseg_data_survives :
+  forall junk (h : ehdr) (secs : list section) (pos' : N),
+    chain secs (e_ehsize h) pos' -> indexed_from 0 secs -> pos' <= e_shoff h ->
+    (forall s, In s secs -> s_cls s = e_cls h /\ shdr_wf s) ->
+    e_shentsize h = shdr_size (e_cls h) ->
+    (forall s, In s secs -> s_index s = 0 -> csize s = 0) ->
+    lenN (e_ident h) = 16 -> e_ehsize h = ehdr_size (e_cls h) ->
+    (forall s b, In s secs -> s_data s = Some b -> sh_size s <= lenN b) ->
+    plan_small 0 (noseg_plan h secs) ->
+    e_shoff h + lenN secs * e_shentsize h < 2 ^ 62 ->
+    forall st s b r,
+    In s secs -> csize s <> 0 -> s_data s = Some b ->
+    same_hdr s r -> s_data r = None ->
+    s_stream_size r = lenN (os_bytes (exec_plan (new_ostream None) (noseg_plan h secs))) ->
+    is_fail st = false -> st_inv st ->
+    is_content st = os_bytes (exec_plan (new_ostream None) (noseg_plan h secs)) ->
+    lenN (os_bytes (exec_plan (new_ostream None) (noseg_plan h secs))) < 2 ^ 63 ->
+    exists st1 s1,
+      sec_load_data junk (Some st) [] r = Ok (Some st1, s1, true, [sh_size r + 1]) /\
+      s_data s1 = Some (firstnN b (sh_size s) ++ [0]).
+Proof. exact noseg_data_read_back. Qed.
+Print Assumptions C05_noseg_data_survives.
 
 Definition ex_s : section :=
   with_entsize (with_addralign (with_size (with_offset (with_flags (with_type (new_section C32) 1) 6) 64) 3) 4) 0.
